@@ -70,12 +70,18 @@ def norm_hist(h):
 def _replay_one(args):
     c, ci, hist, kw, chk_all, tid = args
     try:
+        if 'fork' in kw:
+            k2 = dict(kw)
+            fk = k2.pop('fork')
+            orig, cp = driver.run_fork(c, hist, fk['at'], fk['mode'], **k2)
+            base = {'ci': ci, 'opt': {'ignore': bool(kw.get('ignore_contract', False)),
+                                      'metas': bool(kw.get('metas', True))}}
+            return [dict(base, id=tid, lines=orig, hist=hist[:len(orig)], kw=dict(kw, role='original')),
+                    dict(base, id=-tid, lines=cp, hist=hist[:len(cp)], kw=dict(kw, role='copy'))]
         lines, _ = driver.run_history(c, hist, **kw)
     except Exception as e:  # harness failure, reported as machinery error
-        return {'id': tid, 'ci': ci, 'error': '%s: %s' % (type(e).__name__, e), 'lines': []}
-    if not chk_all:
-        for ln in lines[:-1]:
-            ln['chk'] = 0
+        import traceback
+        return {'id': tid, 'ci': ci, 'error': '%s: %s\n%s' % (type(e).__name__, e, traceback.format_exc()[-800:]), 'lines': []}
     return {'id': tid, 'ci': ci, 'opt': {'ignore': bool(kw.get('ignore_contract', False)),
                                          'metas': bool(kw.get('metas', True))},
             'lines': lines, 'hist': hist, 'kw': kw}
@@ -85,9 +91,42 @@ def replay(charts, jobs, procs=16):
     """jobs: list of (ci (1-based), hist, kw, chk_all).  Returns list of trace dicts."""
     args = [(charts[ci - 1], ci, hist, kw, chk_all, i + 1) for i, (ci, hist, kw, chk_all) in enumerate(jobs)]
     if len(args) < 200 or procs <= 1:
-        return [_replay_one(a) for a in args]
-    with multiprocessing.Pool(procs) as pool:
-        return pool.map(_replay_one, args, chunksize=max(1, len(args) // (procs * 8)))
+        res = [_replay_one(a) for a in args]
+    else:
+        with multiprocessing.Pool(procs) as pool:
+            res = pool.map(_replay_one, args, chunksize=max(1, len(args) // (procs * 8)))
+    out = []
+    for r in res:
+        out += r if isinstance(r, list) else [r]
+    return out
+
+
+def replay_other_process(charts, jobs, hashseed, workdir):
+    """The same jobs replayed in a fresh python process under another PYTHONHASHSEED."""
+    import subprocess
+    inp = os.path.join(workdir, 'jobs_%s.json' % hashseed)
+    outp = os.path.join(workdir, 'traces_%s.json' % hashseed)
+    with open(inp, 'w') as f:
+        json.dump({'charts': charts, 'jobs': jobs}, f)
+    env = dict(os.environ, PYTHONHASHSEED=str(hashseed))
+    p = subprocess.run([sys.executable, os.path.join(VERIF, 'harness', 'replay_worker.py'), inp, outp],
+                       env=env, stdout=subprocess.PIPE, stderr=subprocess.STDOUT, text=True)
+    if p.returncode != 0:
+        raise RuntimeError('replay worker failed: ' + p.stdout[-2000:])
+    with open(outp) as f:
+        return json.load(f)
+
+
+def attach_refs(traces_a, traces_b, rel):
+    """Line by line, what the twin run (traces_b) observed becomes the ref of traces_a."""
+    for ta, tb in zip(traces_a, traces_b):
+        for la, lb in zip(ta['lines'], tb['lines']):
+            la['ref'] = driver.ref_of(rel, lb)
+        if len(tb['lines']) != len(ta['lines']):
+            # the twin stopped at another step: make the first unmatched line disagree visibly
+            n = min(len(ta['lines']), len(tb['lines']))
+            if n < len(ta['lines']):
+                ta['lines'][n]['ref'] = dict(driver.NOREF, rel=rel, exc='<twin run ended earlier>')
 
 
 # ------------------------------------------------------------------ random drivers (code side)
